@@ -889,7 +889,18 @@ class G:
         c = self.bool_expr(sc, 2, True)
         ret = ctx.fun["ret"]
         val = None if ret is None else self.expr(ret, sc, 1, True)
-        return [("if", c, [("ret", val)], None, self.pick(["block", "line"]))]
+        # the other branch: absent, a statement, or a return of its own (one-line and block form; the if is never the last
+        # statement of the function because more statements or the tail follow)
+        k = self.pick(["none", "none", "print", "ret"]) if ret is not None else self.pick(["none", "none", "print"])
+        if k == "none":
+            el = None
+        elif k == "print":
+            el = [("print", self.expr(self.printable(sc), sc, 1, True))]
+        else:
+            el = [("ret", self.expr(ret, sc, 1, True))]
+        if el is not None and self.chance(30):
+            return [("if", ("not", BOOL, c), el, [("ret", val)], self.pick(["block", "line"]))]
+        return [("if", c, [("ret", val)], el, self.pick(["block", "line"]))]
 
     # -- definitions -----------------------------------------------------------------------------------------
     def gen_exceptions(self):
